@@ -4,6 +4,7 @@
 package main
 
 import (
+	"encoding/json"
 	"fmt"
 	"math/rand"
 	"sort"
@@ -279,6 +280,31 @@ func httpHistory(c *drv.Ctx, w *drv.Worker, r *rand.Rand, tag string, nops int) 
 		if bad != "" {
 			c.Violation("http:kv:"+tag+":"+key+"@"+h.Short(v), fmt.Sprintf("GET key %q at %s: %s; history: %s", key, h.Short(v), bad, strings.Join(trace, "; ")),
 				map[string]interface{}{"layer": "http", "trace": trace, "key": key, "version": h.Short(v), "model": exp, "got_status": rr.Status, "got_body": string(rr.Body)})
+		}
+		// the same datum read through the range path (its own resolver): the one-key interval [key, key] and the interval
+		// from the smallest key name up to this key must list the key exactly when the model says it has a value at v
+		if exp.Kind != dvc.Conflict {
+			for _, lo := range []string{key, "0"} {
+				kr, err := w.Get("/api/node/" + v + "/kv/keyrange/" + lo + "/" + key)
+				if err != nil {
+					return err
+				}
+				c.Count("http_range_reads", 1)
+				var ks []string
+				listed := false
+				if kr.Status == 200 && json.Unmarshal(kr.Body, &ks) == nil {
+					for _, k := range ks {
+						if k == key {
+							listed = true
+						}
+					}
+				}
+				if kr.Status == 200 && listed != (exp.Kind == dvc.Value) {
+					c.Violation("http:kv-range:"+tag+":"+key+"@"+h.Short(v), fmt.Sprintf("GET keyrange/%s/%s at %s lists %v but the model says key %q is %v there (point read: %d); history: %s", lo, key, h.Short(v), ks, key, exp.Kind, rr.Status, strings.Join(trace, "; ")),
+						map[string]interface{}{"layer": "http-range", "trace": trace, "key": key, "version": h.Short(v), "model": exp, "listed": ks})
+					break
+				}
+			}
 		}
 		// unversioned instance: one state for the whole repo
 		ur, err := w.Get("/api/node/" + v + "/ukv/key/" + key)
